@@ -70,7 +70,7 @@ func Child(seed int64, tier, cfgName, stateFile string, trees int) {
 		}
 	}
 	for t := 0; t < trees; t++ {
-		if !oneTree(s, run, r, t) {
+		if !OneTree(s, run, r, t) {
 			return
 		}
 	}
@@ -95,7 +95,7 @@ func lastN(l []string, n int) []string {
 }
 
 // oneTree plans a random tree on top of the current tip (or a few blocks below it) and delivers it.
-func oneTree(s *chainsim.Sim, run *vlib.Run, r *vlib.Rand, tno int) bool {
+func OneTree(s *chainsim.Sim, run *vlib.Run, r *vlib.Rand, tno int) bool {
 	g := s.G
 	root := s.Ref.Tip
 	// sometimes fork from below the tip (reorganisation of already connected blocks)
